@@ -213,16 +213,33 @@ func decodeLossless(data []byte) (image.Image, error) {
 // for use by the animation package's FrameEncoderFunc.
 func encodeFrameForAnimation(img image.Image, isLossless bool, quality int) ([]byte, error) {
 	opts := &EncoderOptions{
-		Lossless: isLossless,
-		Quality:  float32(quality),
-		Method:   4,
+		Lossless:     isLossless,
+		Quality:      float32(quality),
+		Method:       4,
+		AlphaQuality: -1, // alpha is coded without level quantisation, as for still images
 	}
 	if isLossless {
 		bs, _, err := encodeLossless(img, opts)
 		return bs, err
 	}
-	bs, _, err := encodeLossy(img, opts)
-	return bs, err
+	bs, alphaData, _, err := encodeLossyWithAlpha(img, opts)
+	if err != nil {
+		return nil, err
+	}
+	if len(alphaData) == 0 {
+		return bs, nil
+	}
+	// A lossy frame keeps its transparency in a separate ALPH chunk. The
+	// muxer expects it as an "ALPH" chunk (header, payload, pad byte) in
+	// front of the VP8 bitstream and writes it as a sub-chunk of the frame.
+	out := make([]byte, 0, 8+len(alphaData)+1+len(bs))
+	out = append(out, 'A', 'L', 'P', 'H',
+		byte(len(alphaData)), byte(len(alphaData)>>8), byte(len(alphaData)>>16), byte(len(alphaData)>>24))
+	out = append(out, alphaData...)
+	if len(alphaData)&1 != 0 {
+		out = append(out, 0)
+	}
+	return append(out, bs...), nil
 }
 
 // simpleEncodeForAnimation encodes an image as a complete simple (non-animated)
@@ -230,9 +247,10 @@ func encodeFrameForAnimation(img image.Image, isLossless bool, quality int) ([]b
 func simpleEncodeForAnimation(img image.Image, isLossless bool, quality float32) ([]byte, error) {
 	var buf bytes.Buffer
 	opts := &EncoderOptions{
-		Lossless: isLossless,
-		Quality:  quality,
-		Method:   4,
+		Lossless:     isLossless,
+		Quality:      quality,
+		Method:       4,
+		AlphaQuality: -1, // alpha is coded without level quantisation, as for still images
 	}
 	if err := Encode(&buf, img, opts); err != nil {
 		return nil, err
